@@ -21,6 +21,7 @@ TraceNext ==
                   /\ aliases' = aliases
                   /\ embedded' = Append(embedded, [place |-> e.place, var |-> e.var, placeholder |-> FALSE])
                   /\ emitted' = emitted
+                  /\ asked' = Append(asked, [place |-> e.place, var |-> e.var, placeholder |-> FALSE])
              ELSE RequestAndEmbed(e.var, e.place)
           /\ fails' = fails \cup (IF e.got_placeholder # embedded'[Len(embedded')].placeholder
                                   THEN {"drift_placeholder_handed_out"} ELSE {})
@@ -29,6 +30,7 @@ TraceNext ==
           /\ embedded' = FixAliasesOp(embedded)
           /\ emitted' = embedded'
           /\ aliases' = aliases
+          /\ asked' = asked
           /\ fails' = fails
                 \cup (IF ~e.main_ok THEN {"drift_main_raised"} ELSE {})
                 \cup (IF e.main_ok /\ ~e.no_placeholder THEN {"C05_NoPlaceholder"} ELSE {})
@@ -41,7 +43,7 @@ TraceNext ==
        \/ /\ e.ev = "End"
           /\ PrintT(<< "VERDICT", e.tid, "clauses:" \o JoinSet(fails) >>)
           /\ fails' = {}
-          /\ phase' = "construct" /\ aliases' = {} /\ embedded' = << >> /\ emitted' = << >>
+          /\ phase' = "construct" /\ aliases' = {} /\ embedded' = << >> /\ emitted' = << >> /\ asked' = << >>
 TraceSpec == TraceInit /\ [][TraceNext]_tvars
 AllConsumed == TLCGet("stats").diameter - 1 = Len(Log)
 =============================================================================
